@@ -329,5 +329,17 @@ def r8(c):
     calls = pv.origin_calls(pe, through_calls=True)
     names = [call_name(x) for x in calls]
     ok = any(n_.endswith(".path") for n_ in names) and all(n_.endswith(".path") for n_ in names)
+    # the result is filed whatever the generator produced: once the generator has run, nothing that depends on the generated text stands between it and the result
+    # (an empty text is a legitimate content — the winning generator may say "this file is empty" — and must still take part in the prio contest)
+    oe = kwarg(res[0], "output")
+    params = {a.arg for a in fn.args.args}
+    onames = {x.id for x in ast.walk(oe) if isinstance(x, ast.Name)} - params if oe is not None else set()
+    if oe is not None and onames:
+        import re as _re
+        ftxt = G.show(GuardMap(fn).formula(res[0]))
+        dep = sorted(n_ for n_ in onames if _re.search(r"(?<![\w.])" + _re.escape(n_) + r"(?![\w])", ftxt))
+        c.check("C19.R8", not dep, repo.loc(m, res[0]), "_run_entire_generator/result-whatever-the-content", f"the result is filed only under {ftxt[:160]}: a generator whose output "
+                f"makes that false (e.g. the empty text) is left out of the prio contest, so a lower-prio generator's content (or no file) is planned for its path",
+                key_text="result-depends-on-output")
     c.check("C19.R8", ok, repo.loc(m, res[0]), "_run_entire_generator/path-as-returned", f"the result's path comes through {[n_ for n_ in names if not n_.endswith('.path')]}: it no longer "
             "equals the key under which the device's file was fetched", key_text="path-rewritten")
